@@ -283,6 +283,27 @@ def run_world(w: World, only=None):
     return out
 
 
+def normalize_world(w: World):
+    """A class is shared by its instances: a plain function returning an awaitable stays only if *every*
+    instance of the class (and of its subclasses) runs the async engine."""
+    def root(fi):
+        while w.families[fi].base is not None:
+            fi = w.families[fi].base
+        return fi
+    sync_roots = {root(m.fam) for m in w.members if not m.scn.is_async()}
+    for fi, f in enumerate(w.families):
+        if root(fi) in sync_roots:
+            for c in f.scn.cbs:
+                if c.wrap == "lazy":
+                    c.wrap = ""
+    for m in w.members:
+        if root(m.fam) in sync_roots:
+            for c in m.scn.cbs:
+                if c.wrap == "lazy":
+                    c.wrap = ""
+    return w
+
+
 # ----------------------------------------------------------------------------- generation
 
 def _redraw_sigs(rng, scn: eng.Scn, flip_coro=False):
